@@ -920,6 +920,7 @@ fn exhaustive(cx: &Cx, rep: &mut Report) {
         };
         rep.stats
             .note(&format!("exhaustive_depth_limit_{}", label), json!(cfg.depth));
+        rep.mark(cx, &format!("exhaustive_limit_{}", label));
     }
 }
 
@@ -1460,7 +1461,12 @@ fn dedupe(v: Vec<Violation>) -> Vec<Violation> {
             .unwrap_or("")
             .to_string();
         let text = x.case.to_string();
-        let key = (x.phase.clone(), sig);
+        // thread runs are kept per thread count
+        let phase = match x.case.get("threads").and_then(|t| t.as_u64()) {
+            Some(t) => format!("{}:T{:02}", x.phase, t),
+            None => x.phase.clone(),
+        };
+        let key = (phase, sig);
         let cand = (text.len(), text, x);
         match best.get(&key) {
             Some(b) if (b.0, &b.1) <= (cand.0, &cand.1) => {}
